@@ -97,4 +97,17 @@ CHECKS.update({
             "note": "Trusted: Program::params() / ProgramDetails::filter_from_bindings as the reporting API (the Python/WASM wrappers over them are not run).",
             "technique": "TLA+ free-identifier computation (spec/Params.tla) + TLC trace validation of recorded compilations (spec/Trace_Params.tla)"},
 })
+CHECKS.update({
+    "C14": {"text": "Every conversion function x the numeric grid, the non-numeric pool, 60 numeric/boolean/garbage spellings and valid/invalid UTF-8 byte strings, as bound values and literals, validated by TLC against Builtins.tla "
+                    "(integral conversions exact or error, double->integer truncation with saturation from the bit fields, int->double nearest, string<->number through exact decimal arithmetic, bytes<->string through UTF-8, type(T(x)) == T); "
+                    "round-trip laws on random values with the observed string(d) re-read by the specification's decimal parser; f-strings against concatenation, by the specification and as an equation evaluated by the implementation.",
+            "note": "Trusted: value projection. string(double) is checked by re-parsing (double(string(d)) == d), not by one expected spelling; timestamp/duration conversions are covered under C16.",
+            "technique": TV},
+    "C15": {"text": "String functions on all strings of length <= 2 over a mixed ASCII/multi-byte/case-folding alphabet plus sampled longer ones x needles (empty, overlapping, absent, multi-byte), validated by TLC against the defining equations in Strings.tla "
+                    "(substring/prefix/suffix, left and right scans, replace = join of split, strip-while trims, byte-offset splitAt, case mapping on a fixed alphabet); equations evaluated by the implementation on random strings up to 40 characters; "
+                    "regex patterns from a subset grammar decided by the specification's own matcher (matches, matchCaptures, matchReplace*), invalid patterns must be errors; abs/pow/log/lg exact on Big, sqrt correctly rounded, ceil/floor/round from the double's bits; "
+                    "the signature table: receiver type x arity 0..3 x argument types must be errors outside the documented shapes.",
+            "note": "Not decided: regex syntax outside the subset, pow/log of doubles (AnyOut), case mapping outside the listed alphabet, explicit null arguments (known finding).",
+            "technique": TV},
+})
 NOT_YET = {}
